@@ -339,7 +339,7 @@ def limiter_pipeline(run, prop, classify_mismatch, classify_reject, graphs=True)
                 {"graph": label, "mismatch": m, "rerun": "bin/check %s" % prop}, sig)
         exhaustive = exhaustive and rep["edges_unreachable"] == 0
     run.exhaustive = exhaustive
-    n = 1500 if th else 150
+    n = 600 if th else 150
     out, _ = run.go("^TestLimiterRandom$", env={"VERIF_N": n})
     tp = os.path.join(out, "limiter_trace.ndjson")
     rows = vlib.read_ndjson(tp)
@@ -453,7 +453,7 @@ def partition_pipeline(run, prop, classify, only_limits=False, graphs=True):
 def partition_random(run, prop, classify, only_limits=False):
     th = run.tier == "thorough"
     # 3. code -> model: random long histories with large limits, dyadic fractions, dynamic partitions
-    n = 2000 if th else 200
+    n = 800 if th else 200
     out, _ = run.go("^TestPartitionRandom$", env={"VERIF_N": n})
     tp = os.path.join(out, "partition_trace.ndjson")
     rows = vlib.read_ndjson(tp)
@@ -714,6 +714,22 @@ def c18(run):
 
 def windowed_part(run, prop):
     th = run.tier == "thorough"
+    # model -> code: every transition of the Windowed contract graph on a real WindowedLimit
+    indir = os.path.join(run.scratch, "in_w")
+    os.makedirs(indir, exist_ok=True)
+    for name, (thr, mc, mt) in ({"t1": (1, 2, 4), "t5": (5, 3, 4)} if th else {"t1": (1, 2, 3)}).items():
+        cfgt = "CONSTANTS WSize = 10 Threshold = %d MaxCount = %d MaxT = %d Emit = TRUE\nINIT Init\nNEXT Next\nINVARIANT MeanWithinWindow\nCHECK_DEADLOCK FALSE\n" % (thr, mc, mt)
+        r = run.tlc("WindowedMC", "w%s.cfg" % name, cfg_text=cfgt, label="mc+gen:Windowed/" + name)
+        if r.error or not r.ok:
+            raise Machinery("TLC %s: %s %s\n%s" % (r.label, r.error, r.violation, r.raw[-3000:]))
+        run.states += r.distinct
+        run.transitions += r.generated
+        emit_graph(run, r, os.path.join(indir, "windowed_%s.ndjson" % name))
+    out, _ = run.go("^TestWindowedReplay$", env={"VERIF_IN": indir}, timeout=900)
+    for rep in json.load(open(os.path.join(out, "windowed_replay.json"))):
+        for m in graph_report(run, prop, rep, "Windowed/" + os.path.basename(rep["file"])):
+            run.report("windowed limit: after sample %s the delegate received %s, the contract fixes %s" % (json.dumps(m["op"]), m["got_res"], m["exp_res"]),
+                       {"mismatch": m, "rerun": "bin/check %s" % prop}, {"kind": "windowed", "why": "graph replay"})
     n = 2000 if th else 200
     out, _ = run.go("^TestWindowedRandom$", env={"VERIF_N": n})
     tp = os.path.join(out, "windowed_trace.ndjson")
